@@ -148,6 +148,44 @@ fn main() {
     std::panic::set_hook(hook);
     let args: Vec<String> = std::env::args().collect();
     let cmd = args.get(1).map(|s| s.as_str()).unwrap_or("");
+    if cmd == "sentinel-sources" {
+        // One-off search (about a minute on 16 cores) for source addresses whose TCP-pool dispatch hash
+        // (hash_source_ip, 64 bits) has an all-one or all-zero upper or lower half. The hits are kept in
+        // /verif/sim/vsim/data/sentinel_sources.json and used as senders in the C18 accounting scenarios: arithmetic
+        // that maps the hash onto a worker index meets its range ends there, once in 2^32 addresses.
+        use std::sync::{Arc, Mutex};
+        let per_thread: u64 = args.get(2).and_then(|x| x.parse().ok()).unwrap_or(1u64 << 30);
+        let hits: Arc<Mutex<Vec<String>>> = Arc::new(Mutex::new(vec![]));
+        let mut hs = vec![];
+        for t in 0..16u16 {
+            let hits = hits.clone();
+            hs.push(std::thread::spawn(move || {
+                // a raw IPv6 packet: version nibble 6, source address at bytes 8..24
+                let mut f = vec![0u8; 60];
+                f[0] = 0x60;
+                f[6] = 6;
+                f[7] = 64;
+                f[8..12].copy_from_slice(&[0x20, 0x01, 0x0d, 0xb8]);
+                f[15] = t as u8;
+                for x in 0..per_thread {
+                    f[16..24].copy_from_slice(&x.to_be_bytes());
+                    let h = huginn_net_tcp::packet_hash::hash_source_ip(&f) as u64;
+                    let (hi, lo) = ((h >> 32) as u32, h as u32);
+                    let class = if hi == u32::MAX { "hi32_ones" } else if hi == 0 { "hi32_zero" } else if lo == u32::MAX { "lo32_ones" } else if lo == 0 { "lo32_zero" } else { continue };
+                    let mut a = [0u8; 16];
+                    a.copy_from_slice(&f[8..24]);
+                    hits.lock().unwrap().push(format!("  {{\"class\": \"{}\", \"addr\": \"{}\", \"hash\": \"{:016x}\"}}", class, std::net::Ipv6Addr::from(a), h));
+                }
+            }));
+        }
+        for h in hs {
+            let _ = h.join();
+        }
+        let mut v = hits.lock().unwrap().clone();
+        v.sort();
+        println!("[\n{}\n]", v.join(",\n"));
+        return;
+    }
     if cmd == "sentinels" {
         // One-off search (minutes on 16 cores) for connections whose dispatch hash takes a sentinel-looking value:
         // low 32 bits all zero or all one. hash_flow(frame, 2^32) is the hash's low half. The hits are kept in
